@@ -307,9 +307,11 @@ class Sym(object):
         v = z3.simplify(self.t)
         if z3.is_rational_value(v) and v.denominator_as_long() == 1:
             return v.numerator_as_long()
+        e = engine()
+        if e is not None and e.allow_realize:
+            return int(e.realize(self.t))      # C-level truncation of a realised value (see realize)
         raise EngineError('silent int() of symbolic value')
 
-    __index__ = None
 
     def __repr__(self):
         s = str(z3.simplify(self.t))
@@ -432,6 +434,60 @@ def boolterm(b):
 
 # --------------------------------------------------------------------------------------
 
+def numeric_eval(t):
+    """float value of a ground z3 real term whose uninterpreted applications are evaluated with the real functions"""
+    import math as _m
+    if z3.is_rational_value(t):
+        return t.numerator_as_long() / t.denominator_as_long()
+    if z3.is_int_value(t):
+        return float(t.as_long())
+    if z3.is_algebraic_value(t):
+        fr = t.approx(20)
+        return fr.numerator_as_long() / fr.denominator_as_long()
+    if not z3.is_app(t):
+        raise EngineError('numeric_eval: %s' % str(t)[:60])
+    k = t.decl().kind()
+    a = [numeric_eval(c) for c in t.children()] if k != z3.Z3_OP_ITE else None
+    if k == z3.Z3_OP_ADD:
+        return sum(a)
+    if k == z3.Z3_OP_SUB:
+        return a[0] - sum(a[1:])
+    if k == z3.Z3_OP_UMINUS:
+        return -a[0]
+    if k == z3.Z3_OP_MUL:
+        r = 1.0
+        for x in a:
+            r *= x
+        return r
+    if k == z3.Z3_OP_DIV:
+        return a[0] / a[1]
+    if k == z3.Z3_OP_POWER:
+        return a[0] ** a[1]
+    if k == z3.Z3_OP_TO_REAL:
+        return a[0]
+    if k == z3.Z3_OP_ITE:
+        c, x, y = t.children()
+        cv = z3.simplify(c)
+        if z3.is_true(cv):
+            return numeric_eval(x)
+        if z3.is_false(cv):
+            return numeric_eval(y)
+        l, r = (numeric_eval(cc) for cc in cv.children()[:2]) if len(cv.children()) == 2 else (0, 0)
+        ck = cv.decl().kind()
+        ok = {z3.Z3_OP_LE: l <= r, z3.Z3_OP_LT: l < r, z3.Z3_OP_GE: l >= r, z3.Z3_OP_GT: l > r, z3.Z3_OP_EQ: l == r}.get(ck)
+        if ok is None:
+            raise EngineError('numeric_eval: condition %s' % str(cv)[:60])
+        return numeric_eval(x if ok else y)
+    if k == z3.Z3_OP_UNINTERPRETED:
+        n = t.decl().name()
+        f = {'exp': _m.exp, 'ln': _m.log, 'log10': _m.log10, 'exp10': lambda x: 10.0 ** x, 'sqrt': _m.sqrt,
+             'pow': lambda x, y: x ** y}.get(n)
+        if f is None:
+            raise EngineError('numeric_eval: no numeric model for %s' % n)
+        return f(*a)
+    raise EngineError('numeric_eval: operator %s' % t.decl().name())
+
+
 class PseudoModel(object):
     """values of the free constants of a satisfiable query, transported from a solver child process"""
     def __init__(self, vals):
@@ -454,7 +510,15 @@ class PseudoModel(object):
     def eval(self, term, model_completion=True):
         ps = self.pairs()
         t = z3.substitute(term, *ps) if ps else term
-        return z3.simplify(t)
+        t = z3.simplify(t)
+        if model_completion and not (z3.is_rational_value(t) or z3.is_true(t) or z3.is_false(t) or z3.is_int_value(t)):
+            # constants the solver left unconstrained: complete the model with 1 (reals/ints) / False
+            from z3 import z3util
+            rest = [v for v in z3util.get_vars(t)]
+            if rest:
+                comp = [(v, z3.RealVal(1) if z3.is_real(v) else (z3.IntVal(1) if z3.is_int(v) else z3.BoolVal(False))) for v in rest]
+                t = z3.simplify(z3.substitute(t, *comp))
+        return t
 
 
 class Engine(object):
@@ -500,6 +564,14 @@ class Engine(object):
         if r != 'sat':
             raise EngineError('cannot realise %s: path not satisfiable/unknown' % str(term)[:60])
         v = m.eval(term, model_completion=True)
+        if not (z3.is_rational_value(v) or z3.is_algebraic_value(v)):
+            # uninterpreted applications left: evaluate them with the TRUE functions at the model's inputs
+            fl = numeric_eval(v)
+            self.pc.append(term == realval(fl))
+            self.model = None
+            self.realized += 1
+            self.realized_vals.append(fl)
+            return fl
         if z3.is_rational_value(v):
             fr = Fraction(v.numerator_as_long(), v.denominator_as_long())
         elif z3.is_algebraic_value(v):
